@@ -372,7 +372,7 @@ func vpPromiseHist(K int) {
 }
 
 func vpH_C17_promises()  { vpPromiseHist(4) }
-func vpHT_C17_promises() { vpPromiseHist(6) }
+func vpHT_C17_promises() { vpPromiseHist(5) }
 
 // penalty: applyIwantPenalties charges exactly the broken promises to the behaviour-penalty counter.
 func vpH_C17_promise_penalty() {
